@@ -25,6 +25,12 @@ def common_specs(U, simd):
             "clamp_is_identity_inside": "IMP(*$1 <= *$0 && *$0 <= *$2, RET == *$0)"})
     U.fn("deg2rad__f32", ensures={"deg2rad_is_x_times_pi_over_180": "FEQ(RET, *$0 * (float)1.745329251994329576923690768489e-2)"})
     U.mfn("lerp__f32", "real", {"lerp_is_convex_combination": lambda P, RET, Q: RET == (1 - P[0]) * P[1] + P[0] * P[2]})
+    # ... and AS WRITTEN in floating point: an algebraically equal rewrite such as a + f*(b-a) differs in rounding, absorption and
+    # overflow (lerp(1, 1e8f, 1) must be 1). The PROOF is in unit c07_lerp_uf (arithmetic uninterpreted: the body is the stated term);
+    # this bit-precise variant is a 40 s counterexample SEARCH (two structurally equal float multipliers do not finish as a proof) that
+    # gives natively replayable inputs when the body is a different term.
+    U.fn("lerp__f32", variant="float_search", timeout=40, refute_only=True, noalias=True, solver=["--sat-solver", "cadical"],
+         ensures={"lerp_is_one_minus_f_times_a_plus_f_times_b_in_float_arithmetic": "FEQ(RET, (1.f - $0) * *$1 + $0 * *$2)"})
     # divRoundUp: semantic over Z; absence of overflow bit-precisely (fails near the type maximum: known finding)
     for nm, T in (("divRoundUp__i32", "int"), ("divRoundUp__u32", "unsigned"), ("divRoundUp__i64", "long")):
         U.mfn(nm, "int", {"divRoundUp_is_least_q_with_q_times_b_ge_a": lambda P, RET, Q: z3.And(RET * P[1] >= P[0], (RET - 1) * P[1] < P[0])},
@@ -60,6 +66,11 @@ def common_specs(U, simd):
 
 def units():
     us = []
+    # lerp / madd AS WRITTEN: scalar arithmetic uninterpreted (sound for "is this term": proved for every interpretation of + - *)
+    W = Unit("c07_lerp_uf", "units/c07_lerp.cpp", opts=dict(uf_arith=True))
+    W.fn("lerp__f32", ensures={"lerp_is_the_term_one_minus_f_times_a_plus_f_times_b": "FEQ(RET, verif_add_f32(verif_mul_f32(verif_sub_f32(1.f, $0), *$1), verif_mul_f32($0, *$2)))"})
+    W.fn("madd__f32", ensures={"madd_is_the_term_a_times_b_plus_c": "FEQ(RET, verif_add_f32(verif_mul_f32($0, $1), $2))"})
+    us.append(W)
     # default (SIMD) configuration: rcp/rsqrt are SSE estimate + Newton-Raphson: opaque, assumed contracts
     U = Unit("c07_simd", "units/c07_scalar.cpp", helpers=HELPERS, opts=dict(opaque=["rcp__f32", "rsqrt__f32"]))
     U.fn("rcp__f32", assumed=True, requires=["FINITE_F($0)", "__builtin_fabsf($0) >= %s" % FLT_MIN],
@@ -97,7 +108,7 @@ def units():
 
 META = dict(
     level="proof",
-    level_text="Bit-precise CBMC contracts on the real scalar kernels for every float / int input: rcp_safe finite and never of opposite sign (RKCOMMON_NO_SIMD build: through the IEEE division itself; SIMD build: rcp_safe_t is proved to hand rcp() only finite arguments with |x| >= FLT_MIN, rcp() itself carrying an assumed contract), clamp inside [lo,hi] and identity inside, sign, deg2rad, madd equal to their definitions, cvt_uint32 equal to round(255*clamp01(f)), saturating, in [0,255], monotone (two-input lemma), per-channel packing of vec4f, alpha not gamma-corrected, makeRandomColor in [0,1]; divRoundUp = least q with q*b >= a over Z (z3) plus bit-precise overflow checks; lerp over the reals.",
+    level_text="Bit-precise CBMC contracts on the real scalar kernels for every float / int input: rcp_safe finite and never of opposite sign (RKCOMMON_NO_SIMD build: through the IEEE division itself; SIMD build: rcp_safe_t is proved to hand rcp() only finite arguments with |x| >= FLT_MIN, rcp() itself carrying an assumed contract), clamp inside [lo,hi] and identity inside, sign, deg2rad, madd equal to their definitions, cvt_uint32 equal to round(255*clamp01(f)), saturating, in [0,255], monotone (two-input lemma), per-channel packing of vec4f, alpha not gamma-corrected, makeRandomColor in [0,1]; divRoundUp = least q with q*b >= a over Z (z3) plus bit-precise overflow checks; lerp is the convex combination over the reals AND is the floating-point term (1-f)*a + f*b as written (unit c07_lerp_uf: arithmetic uninterpreted, so an algebraically equal rewrite with different rounding is not accepted), madd likewise; a 40 s bit-precise counterexample search for lerp supplies replayable inputs when the term differs.",
     level_note="NOT decided (stated in DESIGN.md 6/C07): the 2^-20 accuracy of rcp/rsqrt in either build (hardware estimate instructions have no semantics in any installed verifier; Newton-Raphson error is a non-linear floating-point fact), linear_to_srgb through pow (uninterpreted), the random distributions and their reproducibility (pcg32, third party). A change that only drops the refinement step is not detected.",
     assumptions=["rcp(float) in the SIMD build: assumed finite and sign preserving on finite |x| >= FLT_MIN", "roundf as modelled by CBMC's C library", "pow uninterpreted", "no NaN inputs where an order is needed",
                  "divRoundUp semantic clause: machine arithmetic treated as mathematical (valid when a+b-1 does not overflow)"],
